@@ -20,6 +20,9 @@ pub struct Rewrite {
     /// extra blanks added where a money literal already has a blank between the amount and its currency word or sign
     #[serde(default)]
     pub inner: u8,
+    /// the '#' of the appended comment is glued to the last token (`3 march# note`)
+    #[serde(default)]
+    pub glue_comment: bool,
 }
 
 /// widen the blank run between the amount of a money literal and its currency (`10k usd`, `5 $`)
@@ -135,7 +138,8 @@ impl Prop for Noise {
             if i + 1 == all.len() {
                 let mut s = rl.render_spaced(",", ".", &c.rw.extra);
                 if let Some(cm) = &c.rw.comment {
-                    s.push_str(" #");
+                    // (one rewriting in four glues the '#' to the last token: `3 march# note`)
+                    s.push_str(if c.rw.glue_comment { "#" } else { " #" });
                     s.push_str(cm);
                 }
                 lines.push(s);
@@ -265,8 +269,9 @@ pub fn rewrite_strategy() -> impl Strategy<Value = Rewrite> {
         prop::option::weighted(0.5, comment_strategy()),
         prop::collection::vec((0u8..5, any::<u32>()), 0..24),
         prop_oneof![2 => Just(0u8), 2 => 1u8..=2, 1 => 3u8..=6],
+        prop::bool::weighted(0.25),
     )
-        .prop_map(|(extra, comment, cases, inner)| Rewrite { extra, comment, cases, inner })
+        .prop_map(|(extra, comment, cases, inner, glue_comment)| Rewrite { extra, comment, cases, inner, glue_comment })
 }
 
 /// lines with EVERY zone key of the table written as configured - also the ones the zone syntax cannot express
@@ -308,14 +313,14 @@ pub fn regressions() -> Vec<Case> {
     let five = GenLine::simple(Line::new(vec![Tok::num(NumLit::new(5.0))]), "C02");
     let date = GenLine { prelude: vec![], line: Line::new(vec![Tok::num(NumLit::new(12.0)), Tok::word("feb", Class::Month), Tok::num(NumLit::new(2020.0))]), lang: "en".into(), tz: None, src: "C09".into() };
     vec![
-        Case { g: five.clone(), rw: Rewrite { extra: vec![], comment: Some(" jan 2020".into()), cases: vec![], inner: 0 } },
-        Case { g: five, rw: Rewrite { extra: vec![2, 0, 3], comment: Some("x = 2 usd EST 10:30 [NUMBER:1]".into()), cases: vec![], inner: 0 } },
-        Case { g: date, rw: Rewrite { extra: vec![1, 2, 3, 4], comment: Some(" mar".into()), cases: vec![(1, 0)], inner: 0 } },
+        Case { g: five.clone(), rw: Rewrite { extra: vec![], comment: Some(" jan 2020".into()), cases: vec![], inner: 0, glue_comment: false } },
+        Case { g: five, rw: Rewrite { extra: vec![2, 0, 3], comment: Some("x = 2 usd EST 10:30 [NUMBER:1]".into()), cases: vec![], inner: 0, glue_comment: false } },
+        Case { g: date, rw: Rewrite { extra: vec![1, 2, 3, 4], comment: Some(" mar".into()), cases: vec![(1, 0)], inner: 0, glue_comment: false } },
     ]
 }
 
 pub fn run(ctx: &Ctx) {
-    ctx.rule("base lines (token lists) from the generators of C02, C03, C05, C06, C09-C14; rewritings: 0-5 extra blanks (U+0020) in every gap between two tokens and at both ends, an appended '# comment' drawn from printable Unicode and from the smartcalc vocabulary (numbers, '=', operators, currency / zone / month words of both languages, atoms, fields, another '#'), letter-case patterns (upper, lower, capitalised, per-letter) on currency codes and aliases (also inside money literals), month names, zone names, connectives and variable names (definition and use cased independently); the blank run between the amount (with magnitude suffix) and the currency word or sign INSIDE a money literal is widened by 1-6 blanks as well; oracle (metamorphic, exact): the AST value of every line of the rewritten text equals that of the base text under the same configuration; blank-only and comment-only lines give an empty slot; non-trivial = the base line evaluates and the rewriting inserted a blank between two tokens, changed a keyword's case or appended a comment containing a vocabulary word");
+    ctx.rule("base lines (token lists) from the generators of C02, C03, C05, C06, C09-C14; rewritings: 0-5 extra blanks (U+0020) in every gap between two tokens and at both ends, an appended '# comment' (after a blank or glued to the last token) drawn from printable Unicode and from the smartcalc vocabulary (numbers, '=', operators, currency / zone / month words of both languages, atoms, fields, another '#'), letter-case patterns (upper, lower, capitalised, per-letter) on currency codes and aliases (also inside money literals), month names, zone names, connectives and variable names (definition and use cased independently); the blank run between the amount (with magnitude suffix) and the currency word or sign INSIDE a money literal is widened by 1-6 blanks as well; oracle (metamorphic, exact): the AST value of every line of the rewritten text equals that of the base text under the same configuration; blank-only and comment-only lines give an empty slot; non-trivial = the base line evaluates and the rewriting inserted a blank between two tokens, changed a keyword's case or appended a comment containing a vocabulary word");
     ctx.assume("nothing is inserted inside a literal token (3:35 pm, GMT+5:30, 6%, 1,5k, $10 are single tokens); the case of unit names, duration words, base names and today/tomorrow/yesterday is not varied (not among the statement's classes)");
     ctx.run_table(&Noise, "regressions", regressions(), false);
     ctx.run_generated(&Noise, ctx.tier.pick(100_000, 1_000_000), case_strategy);
